@@ -189,6 +189,12 @@ func checkC02(c *Ctx) {
 		cp := i%3 != 0
 		buf := append([]byte{}, doc...)
 		out := implParse(buf, false, cp, nil)
+		if cp && i%2 == 1 {
+			// the documented default (copying) on an object that was last used without copying
+			if prev := implParse([]byte(`{"earlier":"call without copying","n":[1,"two"]}`), false, false, nil); !prev.Err {
+				out = implParseDefault(buf, false, prev.PJ)
+			}
+		}
 		if out.Err {
 			continue
 		}
